@@ -146,6 +146,8 @@ pub fn eval(c: &ImgCase) -> CaseOut {
     let devh = dev.handle();
     let width = g.width;
     // ground truth of the status flags: boot-sector status byte OR the two flag bits of table entry 1 (FAT16/32)
+    // without the 0x29 extended boot signature the volume id / label / type fields of the boot sector are not there
+    let has_ext_sig = refdec::rd8(&img, g.status_off() + 1) == 0x29;
     let e1 = g.fat_raw(&img, g.active_copy(), 1);
     let st_byte = refdec::rd8(&img, g.status_off());
     let (want_dirty, want_ioerr) = match width {
@@ -165,7 +167,7 @@ pub fn eval(c: &ImgCase) -> CaseOut {
         if w != width {
             return Err(format!("library sees FAT{}, the volume is FAT{}", w, width));
         }
-        if fs.volume_id() != 0xCAFE_F00D {
+        if has_ext_sig && fs.volume_id() != 0xCAFE_F00D {
             return Err(format!("volume id {:#x}", fs.volume_id()));
         }
         let lab = fs.read_volume_label_from_root_dir_as_bytes().map_err(|e| format!("label: {:?}", e))?;
